@@ -232,7 +232,7 @@ func parseContractFile(path, pkgPath string) (*ContractFile, error) {
 				lastSp = sp
 				curLem = nil
 			}
-		case "guarded", "held", "goroutines":
+		case "guarded", "held", "goroutines", "public":
 			if err := flush(); err != nil {
 				return nil, err
 			}
@@ -257,6 +257,9 @@ func parseContractFile(path, pkgPath string) (*ContractFile, error) {
 				g.Func, g.Param = fs[0], fs[1]
 			case word == "goroutines" && len(fs) == 1:
 				g.Func = fs[0]
+			case word == "public" && len(fs) == 2:
+				// public <Type> m1,m2: handler methods that may be registered without the authentication wrapper
+				g.Type, g.Fields = fs[0], strings.Split(fs[1], ",")
 			default:
 				return nil, fmt.Errorf("%s:%d: malformed %s clause", path, ln+1, word)
 			}
